@@ -665,7 +665,8 @@ def eval_arm_after_setter(acc, mr, ac, q, V):
     try:
         with dynlib_quiet():
             arm.setOrigins(link_homes_global=[tm(T.copy()) for T in new_global])
-            arm.setMassProperties(ac.masses.copy(), [tm(T.copy()) for T in Ml3], G2.copy())
+            cgl = [tm(T.copy()) for T in Ml3]        # the caller keeps this list (third stage)
+            arm.setMassProperties(ac.masses.copy(), cgl, G2.copy())
         got = ask()
     except Exception as e:
         acc.violation("raised", dict(base, fn="link-frame setter history"), repr(e))
@@ -682,6 +683,93 @@ def eval_arm_after_setter(acc, mr, ac, q, V):
         acc.resid("arm_after_link_frame_setter", r)
         if not r <= (1e-6 if name == "forwardDynamicsE" else REL):
             acc.violation("arm_after_link_frame_setter", dict(base, fn=name), {"rel": r}, REL)
+
+    # third stage: the caller EDITS THE ENTRIES of the list it passed (same list object, same pose objects, new values: each
+    # link frame shifted along its own z) and hands the same list to the setters again; every function must answer for the
+    # values the entries hold now - a stacked copy remembered under the identity of the list is stale here
+    try:
+        for i in range(n):
+            cgl[i][2] = float(cgl[i][2]) + 0.04 * (i + 1)
+        Ml5 = [np.array(c.gTM(), float).copy() for c in cgl[:n]]
+        glob5, X = [], np.eye(4)
+        for i in range(n):
+            X = X @ Ml5[i]
+            glob5.append(X.copy())
+        tip = tm(se3.tinv(glob5[n - 1]) @ tip_global)
+        for j in range(6):
+            cgl[n][j] = float(tip[j])
+        Ml5 = np.array(Ml5 + [np.array(cgl[n].gTM(), float).copy()])
+        with dynlib_quiet():
+            arm.setOrigins(link_homes_global=[tm(T.copy()) for T in glob5])
+            arm.setMassProperties(ac.masses.copy(), cgl, G2.copy())
+        got = ask()
+        with dynlib_quiet():
+            got["forwardDynamics"] = flat(arm.forwardDynamics(q.copy(), qd.copy(), got["inverseDynamics"].copy(), g.copy(), F.copy()))
+    except Exception as e:
+        acc.violation("raised", dict(base, fn="link-frame entries edited in place"), repr(e))
+        return
+    M = call("MassMatrix", mr.MassMatrix, q, Ml5, G2, S)
+    tau = call("InverseDynamics", mr.InverseDynamics, q, qd, qdd, g, F, Ml5, G2, S)
+    cg = call("VelQuadraticForces", mr.VelQuadraticForces, q, qd, Ml5, G2, S) + call("GravityForces", mr.GravityForces, q, g, Ml5, G2, S)
+    T = max(1.0, amax(tau))
+    want = {"massMatrix": (flat(M), amax(M)), "inverseDynamics": (flat(tau), T), "inverseDynamicsC": (flat(tau), T),
+            "inverseDynamicsEMR": (flat(tau), T), "coriolisGravity": (flat(cg), T), "forwardDynamicsE": (flat(qdd), max(1.0, amax(qdd))),
+            "forwardDynamics": (flat(qdd), max(1.0, amax(qdd)))}
+    for name, (w, sc) in want.items():
+        acc.evals += 1
+        r = amax(got[name] - w) / sc if got[name].shape == w.shape and finite(got[name]) else float("inf")
+        acc.resid("arm_after_link_frames_edited_in_place", r)
+        if not r <= (1e-6 if name.startswith("forwardDynamics") else REL):
+            acc.violation("arm_after_link_frames_edited_in_place", dict(base, fn=name), {"rel": r}, REL)
+
+
+def eval_arm_narrow_limits(acc, mr, ac, q, V):
+    """The same arm with joint ranges NARROWER than the state asked for (|q_i| up to pi is inside the statement's range, the
+    arm's own limits are the caller's choice): the library clamps joint values to the limits silently, so an answer may
+    belong to q as given or to q clamped - but to ONE of the two as a whole, never to link poses of one and Jacobians of
+    the other.  Both readings are computed with the port; an answer is accepted when it matches either."""
+    import copy as _copy
+    arm = _copy.deepcopy(ac.arm)
+    n = ac.n
+    Ml, Gl, S = ac.Ml, ac.Gl, ac.S
+    lim = 0.45 * max(1e-3, float(np.abs(q).max()))
+    if not float(np.abs(q).max()) > 1e-3:
+        return
+    with dynlib_quiet():
+        arm.setJointProperties(-lim * np.ones(n), lim * np.ones(n))
+    qc = np.clip(q, -lim, lim)
+    qd, qdd, g, F = V.qd[n + 1], V.qdd[n + 1], V.g[4], V.F[7]
+    base = {"part": "arms_narrow", "arm": ac.name, "q": q, "limit": lim}
+    want = {}
+    for tag, qq in (("as_given", q), ("clamped", qc)):
+        M = call("MassMatrix", mr.MassMatrix, qq, Ml, Gl, S)
+        tau = call("InverseDynamics", mr.InverseDynamics, qq, qd, qdd, g, F, Ml, Gl, S)
+        cgv = call("VelQuadraticForces", mr.VelQuadraticForces, qq, qd, Ml, Gl, S) + call("GravityForces", mr.GravityForces, qq, g, Ml, Gl, S)
+        want[tag] = {"massMatrix": (flat(M), amax(M)), "inverseDynamicsC_M": (flat(M), amax(M)), "forwardDynamicsE_M": (flat(M), amax(M)),
+                     "inverseDynamics": (flat(tau), max(1.0, amax(tau))), "inverseDynamicsC": (flat(tau), max(1.0, amax(tau))),
+                     "inverseDynamicsEMR": (flat(tau), max(1.0, amax(tau))), "coriolisGravity": (flat(cgv), max(1.0, amax(tau)))}
+    try:
+        with dynlib_quiet():
+            got = {"massMatrix": flat(arm.massMatrix(q.copy()))}
+            r = arm.inverseDynamicsC(q.copy(), qd.copy(), qdd.copy(), g.copy(), F.copy().reshape(6, 1))
+            got["inverseDynamicsC"], got["inverseDynamicsC_M"] = flat(r[0]), flat(r[1])
+            got["inverseDynamics"] = flat(arm.inverseDynamics(q.copy(), qd.copy(), qdd.copy(), g.copy(), F.copy())[0])
+            got["inverseDynamicsEMR"] = flat(arm.inverseDynamicsEMR(q.copy(), qd.copy(), qdd.copy(), g.copy(), F.copy()))
+            got["coriolisGravity"] = flat(arm.coriolisGravity(q.copy(), qd.copy(), g.copy()))
+            got["forwardDynamicsE_M"] = flat(arm.forwardDynamicsE(q.copy(), qd.copy(), got["inverseDynamics"].copy(), g.copy(), F.copy())[1])
+    except Exception as e:
+        acc.violation("raised", dict(base, fn="narrow limits"), repr(e))
+        return
+    for name, v in got.items():
+        acc.evals += 1
+        rs = []
+        for tag in ("as_given", "clamped"):
+            w, sc = want[tag][name]
+            rs.append(amax(v - w) / sc if v.shape == w.shape and finite(v) else float("inf"))
+        r = min(rs)
+        acc.resid("arm_narrow_limits_one_reading", r)
+        if not r <= REL:
+            acc.violation("arm_narrow_limits_one_reading", dict(base, fn=name), {"rel_as_given": rs[0], "rel_clamped": rs[1]}, REL)
 
 
 def work_arms(p):
@@ -708,6 +796,10 @@ def work_arms(p):
                 eval_arm_after_setter(acc, mr, ac, q, V)
             except LibRaised as e:
                 acc.violation("raised", {"part": "arms_setter", "arm": name, "fn": e.fn}, repr(e.exc))
+            try:
+                eval_arm_narrow_limits(acc, mr, ac, q, V)
+            except LibRaised as e:
+                acc.violation("raised", {"part": "arms_narrow", "arm": name, "fn": e.fn}, repr(e.exc))
             sts = dynlib.arm_states(ac.n, ac.lo, ac.hi, p["tier"])
             try:
                 eval_arm_reuse(acc, mr, ac, [sts[i] for i in sorted({len(sts) - 1 - j * max(1, len(sts) // 9) for j in range(9)} | {0})], V)
@@ -810,6 +902,14 @@ def replay(rec):
             eval_arm_after_setter(acc, mr, ac, np.array(c["q"], float), V)
         except LibRaised as e:
             acc.violation("raised", {"part": "arms_setter", "arm": c["arm"], "fn": e.fn}, repr(e.exc))
+        return [v for v in acc.viols if v["clause"] == rec["clause"] and v["case"].get("fn") == c.get("fn")]
+    if c["part"] == "arms_narrow":
+        ac = dynlib.build_arm(c["arm"], seed)
+        V = vecs(ac.n, seed)
+        try:
+            eval_arm_narrow_limits(acc, mr, ac, np.array(c["q"], float), V)
+        except LibRaised as e:
+            acc.violation("raised", {"part": "arms_narrow", "arm": c["arm"], "fn": e.fn}, repr(e.exc))
         return [v for v in acc.viols if v["clause"] == rec["clause"] and v["case"].get("fn") == c.get("fn")]
     if rec["clause"] == "argument_modified":
         pass        # falls through: re-evaluating the item drains ARG_MUT into acc below
